@@ -24,6 +24,17 @@ structure St where
   m1 : Str
   s0 : Spec.Str
   s1 : Spec.Str
+  /-- `ct=wchar`: `wchar_t` is a signed 32-bit type on this target, so `char_traits<wchar_t>::lt` orders a unit given as
+      its 32-bit pattern u as the integer u - 2^32 when u ≥ 2^31.  Model, spec and theorems order code units as naturals
+      (what `lt` does for char / char8_t / char16_t / char32_t); the `compare` and `rel` lines of a wide string are
+      therefore evaluated on the images of both operands under the order isomorphism u ↦ (u + 2^31) mod 2^32
+      (`ordKey`, the same device as in C08's driver): it is injective on 32-bit patterns, so equality of units is
+      preserved, it commutes with `drop`/`take`/`substr`, and it turns the signed order into the natural one.  Nothing
+      else in the string interface depends on the order of code units. -/
+  wide : Bool := false
+
+def ordKey (wide : Bool) (xs : List Nat) : List Nat :=
+  if wide then xs.map C08.Spec.signedKey32 else xs
 
 def fmtErr : Err → String
   | .pre _ => "pre"
@@ -165,7 +176,7 @@ def resultStr (cap : Nat) (m : Except Err Str) (s : Option Spec.Str) (assignLike
 def step (st? : Option St) (l : Line) : Option St × String :=
   if l.op == "new" then
     match l.nat? "cap" with
-    | some cap => (some ⟨cap, Str.mk0 cap, Str.mk0 cap, [], []⟩, s!"new {mState (Str.mk0 cap)}\tnew 0:[]:1")
+    | some cap => (some ⟨cap, Str.mk0 cap, Str.mk0 cap, [], [], (l.str? "ct").getD "char" == "wchar"⟩, s!"new {mState (Str.mk0 cap)}\tnew 0:[]:1")
     | none => bad st?
   else
   match st? with
@@ -345,10 +356,14 @@ def step (st? : Option St) (l : Line) : Option St × String :=
     let p2 := posArg l "pos2"
     let c2 := posArg l "count2" (some NPOS)
     let sgn (i : Int) : String := fmtSign i
+    let ok := ordKey st.wide
+    let okE (u : Except Err Units) : Except Err Units := u.map ok
+    -- spec side: for wide strings the signed comparison of the raw units (`C08.Props.cmpSigned_eq_cmp_key`)
+    let scmp (a b : Spec.Str) : Int := if st.wide then C08.Spec.cmpSigned a b else C08.Spec.cmp a b
     match ov with
     | "str" | "cstr" | "view" =>
       match needle with
-      | some (nm, ns) => query st x (do .ok (sgn (← C08.compare (← h) (← nm)))) (ns.map fun n => sgn (C08.Spec.cmp x.s n))
+      | some (nm, ns) => query st x (do .ok (sgn (← C08.compare (← okE h) (← okE nm)))) (ns.map fun n => sgn (scmp x.s n))
       | none => bad st?
     | "str3" | "cstr3" | "ptrn4" | "view3" =>
       let a : Option Arg := match ov with
@@ -360,12 +375,12 @@ def step (st? : Option St) (l : Line) : Option St × String :=
       | some a, some p1, some c1 =>
         let nm : Except Err Units := do let s ← a.src x.o; .ok ((s.arr.drop s.off).take s.len)
         let m := do
-          let hh ← h
-          let n ← nm
+          let hh ← okE h
+          let n ← okE nm
           if ov == "view3" then C08.compare3 hh p1 c1 n else compare3 hh p1 c1 n
         let s := do
           let n ← a.den x.so
-          if p1 > x.s.length then none else some (sgn (C08.Spec.cmp (Spec.substr x.s p1 c1) n))
+          if p1 > x.s.length then none else some (sgn (scmp (Spec.substr x.s p1 c1) n))
         query st x (m.map sgn) s
       | _, _, _ => bad st?
     | "str5" | "view5" =>
@@ -374,20 +389,24 @@ def step (st? : Option St) (l : Line) : Option St × String :=
       | some a, some p1, some c1, some p2, some c2 =>
         let nm : Except Err Units := do let s ← a.src x.o; .ok ((s.arr.drop s.off).take s.len)
         let m := do
-          let hh ← h
-          let n ← nm
+          let hh ← okE h
+          let n ← okE nm
           if ov == "view5" then C08.compare5 hh p1 c1 n p2 c2 else compare5 hh p1 c1 n p2 c2
         let s := do
           let n ← a.den x.so
           if p1 > x.s.length || p2 > n.length then none
-          else some (sgn (C08.Spec.cmp (Spec.substr x.s p1 c1) (Spec.substr n p2 c2)))
+          else some (sgn (scmp (Spec.substr x.s p1 c1) (Spec.substr n p2 c2)))
         query st x (m.map sgn) s
       | _, _, _, _, _ => bad st?
     | _ => bad st?
   | "rel" =>
+    let ok := ordKey st.wide
+    let okE (u : Except Err Units) : Except Err Units := u.map ok
+    -- spec side: for wide strings the signed comparison of the raw units (`C08.Props.cmpSigned_eq_cmp_key`)
+    let scmp (a b : Spec.Str) : Int := if st.wide then C08.Spec.cmpSigned a b else C08.Spec.cmp a b
     match ov with
     | "strstr" =>
-      query st x (do .ok (rels6 (← C08.compare (← h) (← x.o.chars)))) (some (rels6 (C08.Spec.cmp x.s x.so)))
+      query st x (do .ok (rels6 (← C08.compare (← okE h) (← okE x.o.chars)))) (some (rels6 (scmp x.s x.so)))
     | "strcstr" | "cstrstr" =>
       match l.natList? "s" with
       | some s =>
@@ -395,9 +414,9 @@ def step (st? : Option St) (l : Line) : Option St × String :=
         let flip := ov == "cstrstr"
         let m := do
           let a ← Arg.src x.o (.cstr s)
-          let c ← C08.compare (← h) ((a.arr.drop a.off).take a.len)
+          let c ← C08.compare (← okE h) (ok ((a.arr.drop a.off).take a.len))
           .ok (rels6 (if flip then -c else c))
-        let c := C08.Spec.cmp x.s n
+        let c := scmp x.s n
         query st x m (some (rels6 (if flip then -c else c)))
       | none => bad st?
     | _ => bad st?
